@@ -493,7 +493,8 @@ namespace sim
                      }
                      else {
                         const bool known = ( x.cls == EXC_ABORT ) || ( x.cls == EXC_OVERFLOW && !cx.memory_set ) || ( x.cls == EXC_IO ) || ( x.cls == EXC_BAD_ALLOC ) || ( x.cls == EXC_SYSTEM && int( set ) >= 20 )
-                                           || ( fr.cls == RC::W_CHECK_BYTES && x.cls == EXC_PE_LIB && x.message == "maximum allowed rule consumption exceeded" );
+                                           || ( fr.cls == RC::W_CHECK_BYTES && x.cls == EXC_PE_LIB && x.message == "maximum allowed rule consumption exceeded" )
+                                           || ( fr.cls == RC::INTEGER && x.cls == EXC_PE_LIB && x.message.find( "overflow" ) != std::string::npos );
                         if( !known ) {
                            cx.viol( "C05.same", hn, i, "exception of unknown origin leaves " + short_name( fr.rule ) + ": class " + std::to_string( x.cls ) + " '" + x.what + "'" );
                         }
@@ -890,6 +891,9 @@ namespace sim
 
    void check_equal( const Case& c, SetId ref_set, const RunResult& ref, SetId alt_set, const RunResult& alt, unsigned chunk, std::vector< Violation >& out, Features& f )
    {
+      if( c.short_by != 0 ) {
+         return;  // the alternative run sees a shorter stream by construction; judged by check_iofault alone
+      }
       (void)ref_set;
       (void)chunk;
       Ctx cx{ c, alt_set, alt, out, f, false };
@@ -921,8 +925,15 @@ namespace sim
             else if( ( e.kind == Ev::EXC || ( e.kind == Ev::TOP_END && ( e.flags & F_EXC ) ) ) && e.x < alt.excs.size() && alt.excs[ e.x ].cls == EXC_OVERFLOW ) {
                overflow = true;
                alt_stop = ( last_req != nullptr ) ? last_req_idx : i;  // the request that threw; unwind hooks follow it
+               if( last_req == nullptr && i > 0 && alt.h[ i - 1 ].kind == Ev::UNWIND ) {
+                  alt_stop = i - 1;
+               }
                if( last_req == nullptr ) {
-                  cx.viol( "C07.overflow", "no-request", i, "overflow_error without a preceding request" );
+                  // stock stream inputs (I/O jobs) do not record their requests; their buffers are sized beyond the
+                  // whole input, so only a grammar whose look-ahead depends on the data (HTTP chunk sizes) may overflow
+                  if( c.prog != 5 ) {
+                     cx.viol( "C07.overflow", "no-request", i, "overflow_error although the buffer maximum exceeds the whole input" );
+                  }
                }
                else {
                   const std::uint64_t need = std::uint64_t( last_req->pos ) + last_req->x - last_discard;
@@ -932,6 +943,13 @@ namespace sim
                }
                break;
             }
+         }
+      }
+      // "never memory corruption": a reader asked to write outside the buffer is a deviation in its own right
+      for( std::size_t k = 0; k < alt.h.size(); ++k ) {
+         if( alt.h[ k ].kind == Ev::SOFT && alt.h[ k ].x == 6 ) {
+            cx.viol( "C07.corrupt", "reader-overrun", k, "the stream input asked its reader to write " + std::to_string( alt.h[ k ].y ) + " byte(s) to a place outside its buffer" );
+            return;
          }
       }
       std::size_t i = 0, j = 0, n = 0;
@@ -1001,6 +1019,23 @@ namespace sim
       Ctx cx{ c, SET_MEM, alt, out, f, false };
       bool ioerr = false, syscall_fault = false;
       std::size_t at = 0;
+      if( c.short_by != 0 ) {
+         // whole-file read of a stream that ends before the size it reported: must be an error, never a parse
+         for( std::size_t i = 0; i < alt.h.size(); ++i ) {
+            const Event& e = alt.h[ i ];
+            if( e.kind == Ev::ENTER ) {
+               cx.viol( "C07.iofault", "short-file", i, "the stream delivered " + std::to_string( c.short_by ) + " byte(s) less than the size it reported, yet parsing started on the buffer" );
+               return;
+            }
+            if( e.kind == Ev::TOP_END ) {
+               if( !( e.flags & F_EXC ) || e.x >= alt.excs.size() || alt.excs[ e.x ].cls != EXC_SYSTEM ) {
+                  cx.viol( "C07.iofault", "short-file", i, "a short whole-file read did not surface as std::system_error / filesystem_error" );
+               }
+               return;
+            }
+         }
+         return;
+      }
       for( std::size_t i = 0; i < alt.h.size(); ++i ) {
          const Event& e = alt.h[ i ];
          if( e.kind == Ev::IOERR && !ioerr ) {
